@@ -31,7 +31,7 @@ ASSUMPTIONS = ["any best operation under the rule's criterion is accepted (no ti
 def generate(seed, tier):
     rng = stream(seed, "c04")
     big = tier == "thorough" and rng.random() < 0.15
-    spec = gen_instance(rng, max_jobs=6 if big else 4, max_machines=5 if big else 4, max_ops=5 if big else 4)
+    spec = gen_instance(rng, sparse_ids=0.03, large=0.008, max_jobs=6 if big else 4, max_machines=5 if big else 4, max_ops=5 if big else 4)
     r = rng.random()
     if r < 0.45:
         rule = {"kind": "builtin", "name": rng.choice(RULES), "how": rng.choice(["str", "enum", "callable", "upper"])}
@@ -67,7 +67,7 @@ def generate(seed, tier):
     if two:
         # a second dispatcher over a DIFFERENT instance shares the solver (and, for the observer-based rule, the
         # module-global scorer); the two are stepped alternately, in seeded random order, or one after the other
-        spec2 = gen_instance(rng, max_jobs=4, max_machines=4, max_ops=4) if rng.random() < 0.8 else spec
+        spec2 = gen_instance(rng, sparse_ids=0.03, large=0.008, max_jobs=4, max_machines=4, max_ops=4) if rng.random() < 0.8 else spec
         cfg["instance2"] = spec2
         extra = [["rule_step", int(rng.random() < 0.6), 1] for _ in range(n_ops(spec2))]
         order = rng.choice(["alternate", "random", "sequential", "sequential_reverse"])
